@@ -11,6 +11,11 @@ built with arbitrary pool keywords `extra` (`routeWith idna proxy extra u`; `rou
 (`= .ok r`), what was observed (`r`) is …"; that requests are sent at all is shown by the non-vacuity
 examples.  The known findings are pinned by `…_witness` theorems (evaluation of the model on the URL
 text), and the headline statements they falsify are proved under the hypothesis that excludes them.
+Repaired defects (the model mirrors the repaired code): the absolute-form target sent to a forwarding
+proxy no longer carries userinfo or fragment (`C15_target_forward`, `C15_target_no_fragment_no_userinfo`
+now without hypothesis on the kind of route), and the `Host` header inside a CONNECT tunnel is computed
+from the tunnel host without its brackets (`C15_host_header_tunnel`); the former witnesses are kept as
+positive theorems on the same URL texts (`…_ok`).
 
 Vocabulary (`U3.Lemmas.Route`): `effPort u` the port after `if not port:` defaulting, `schemeDefault s`
 80/443, `unbracket` the pool's `host[1:-1]`, `dialName` `create_connection`'s `strip("[]")`,
@@ -270,19 +275,23 @@ theorem C15_sni_zone_escape_witness :
 
 /-! ## the request target -/
 
-/-- **Neither userinfo nor fragment reaches the wire** (direct and tunnelled routes, any manager
-state, any carried headers): the whole observation — pool, address, TLS names, CONNECT, target, `Host`,
-request bytes — and the manager's next state are unchanged when userinfo and fragment of the URL are
-replaced by anything else. -/
+/-- **Neither userinfo nor fragment reaches the wire** (direct, tunnelled and forwarded routes, any
+manager state, any carried headers): the whole observation — pool, address, TLS names, CONNECT, target,
+`Host`, request bytes — and the manager's next state are unchanged when userinfo and fragment of the
+URL are replaced by anything else.  (Before the repair of `target:forward:userinfo-kept` /
+`…fragment-kept` this held only for routes that are not forwarded.) -/
 theorem C15_target_no_fragment_no_userinfo (idna : Str → Option Str) (m : Mgr) (u : Url.Url)
-    (carried : List (Str × Str)) (a f : Option Str)
-    (hnf : isForwarding m.proxy u.scheme = false) :
+    (carried : List (Str × Str)) (a f : Option Str) :
     route idna m { u with auth := a, fragment := f } carried = route idna m u carried :=
-  route_congr idna m _ u carried rfl rfl rfl rfl hnf
+  route_auth_frag idna m u a f carried
 
--- non-vacuity: without a proxy nothing is forwarded; an http proxy tunnels https
-example (s : Option Str) : isForwarding none s = false := rfl
-example : isForwarding (some pxHttp) (some https) = false := by decide
+-- instances: a forwarded and a tunnelled request with userinfo and fragment are the requests without
+example : send1 (some pxHttp) "http://uSr:pw@example.com/p?q#frag" = send1 (some pxHttp) "http://example.com/p?q" := by
+  decide +kernel
+example : send1 (some pxHttp) "https://uSr:pw@example.com/p?q#frag" = send1 (some pxHttp) "https://example.com/p?q" := by
+  decide +kernel
+example : ((send1 (some pxHttp) "http://uSr:pw@example.com/p?q#frag").toOption.map (·.target)) =
+    some (lit "http://example.com/p?q") := by decide +kernel
 
 /-- **The request target (direct and tunnelled)** is `_encode_target(request_uri)`: it starts with `/`;
 and when path and query are in normal form (every parsed http/https URL: `C14_normal_form`) it *is*
@@ -334,47 +343,41 @@ example : (send1 none "http://u:p@h/a?b#c").toOption.map (·.request) =
     some (lit "GET /a?b HTTP/1.1\r\nHost: h\r\nAccept-Encoding: identity\r\nUser-Agent: " ++ Gen.defaultUserAgent ++
       lit "\r\n\r\n") := by decide +kernel
 
-/-
-Full statement (property text) for forwarding routes: the target names scheme, host, port, path and
-query — never the fragment or the userinfo.  FALSE: `ProxyManager.urlopen` sends `parse_url(url).url`
-(known findings `target:forward:userinfo-kept`, `target:forward:fragment-kept`,
-`target:forward:fragment-kept+userinfo-kept`; witnesses below).
-
-Proved: the absolute-form target is the string form of the URL; for a URL without userinfo and
-fragment that is `scheme://host[:port]path[?query]`.
--/
-theorem C15_target_forward_partial (idna : Str → Option Str) (extra : PoolKey.Ctx) (p : ProxyCfg)
+/-- **The request target (forwarding)**: no CONNECT is sent, and the absolute-form target names scheme,
+host, port (as written), path and query — `scheme://host[:port]path[?query]` — and nothing else: never
+the userinfo, never the fragment (the right-hand side does not mention them).  This is the full statement
+of the property text for forwarded requests; it was FALSE before the repair of
+`target:forward:userinfo-kept` / `target:forward:fragment-kept` (`HTTPConnectionPool.urlopen` sent
+`parse_url(url).url`; it now sends `parse_url(url)._replace(auth=None, fragment=None).url`). -/
+theorem C15_target_forward (idna : Str → Option Str) (extra : PoolKey.Ctx) (p : ProxyCfg)
     (u : Url.Url) (r : Route) (s hst : Str) (hs : u.scheme = some s) (hsch : s = http ∨ s = https)
     (hh : u.host = some hst)
     (hf : isForwarding (some p) u.scheme = true)
     (h : routeWith idna (some p) extra u = .ok r) :
-    r.connect = none ∧ r.target = u.render ∧
-    (u.auth = none → u.fragment = none →
-      r.target = s ++ [58, 47, 47] ++ hst ++ (match u.port with | some n => 58 :: Url.natToDec n | none => []) ++
-        (match u.path with | some x => x | none => []) ++ qSuffix u.query) := by
+    r.connect = none ∧
+    r.target = s ++ [58, 47, 47] ++ hst ++ (match u.port with | some n => 58 :: Url.natToDec n | none => []) ++
+      (match u.path with | some x => x | none => []) ++ qSuffix u.query := by
   obtain ⟨n, pl, -, -, -, -, -, -, -, -, -, -, hcon, htg, -⟩ :=
     route_forward_ok (by rcases hsch with rfl | rfl <;> simp [hs]) hf h
-  refine ⟨hcon, htg, ?_⟩
-  intro ha hfr
-  rw [htg]
-  cases hpo : u.port <;> cases hpa : u.path <;> cases hq : u.query <;>
-    simp [Url.Url.render, qSuffix, hs, hh, ha, hfr, hpo, hpa, hq]
+  refine ⟨hcon, ?_⟩
+  rw [htg, absTarget_eq, hs, hh]
+  rfl
 
 -- non-vacuity: an http URL through an http proxy is forwarded
 example : isForwarding (some pxHttp) (some http) = true := by decide
 example : (send1 (some pxHttp) "http://Example.com:8080/a?b").toOption.map (·.target) =
     some (lit "http://example.com:8080/a?b") := by decide +kernel
 
-/-- known findings `target:forward:userinfo-kept`, `target:forward:fragment-kept` (and both at once):
-the absolute-form target keeps userinfo and fragment — for an http URL through an http proxy and for
-an https URL through a forwarding https proxy -/
-theorem C15_target_forward_userinfo_fragment_witness :
+/-- the inputs of the repaired findings `target:forward:userinfo-kept`, `target:forward:fragment-kept`
+(and both at once): the absolute-form target carries neither userinfo nor fragment — for an http URL
+through an http proxy and for an https URL through a forwarding https proxy -/
+theorem C15_target_forward_userinfo_fragment_ok :
     (send1 (some pxHttp) "http://uSr:pw@example.com/p").toOption.map (·.target) =
-      some (lit "http://uSr:pw@example.com/p") ∧
+      some (lit "http://example.com/p") ∧
     (send1 (some pxHttp) "http://example.com/p#frag").toOption.map (·.target) =
-      some (lit "http://example.com/p#frag") ∧
+      some (lit "http://example.com/p") ∧
     (send1 (some pxHttpsFwd) "https://uSr@example.com/p#frag").toOption.map (·.target) =
-      some (lit "https://uSr@example.com/p#frag") := by
+      some (lit "https://example.com/p") := by
   decide +kernel
 
 /-! ## equivalent URLs -/
@@ -534,36 +537,45 @@ example : (send1 (some pxHttp) "https://Example.COM:8443/").toOption.map
     some (lit "proxy.example", 3128, [lit "example.com"],
       some (lit "CONNECT example.com:8443 HTTP/1.1\r\nHost: example.com:8443\r\n\r\n")) := by decide +kernel
 
-/-
-Full statement: inside the tunnel the `Host` header names the URL's host (an IPv6 literal in ONE pair of
-brackets) and port.  FALSE for IPv6 literals (known findings `host-header:tunnel:ipv6-double-bracket`,
-`host-header:tunnel:ipv6-zone-unbalanced-bracket`, witness below): the pool hands the *bracketed*
-`_tunnel_host` to `set_tunnel` and `http.client` brackets every host containing `:` again.
-
-Proved: for a tunnel host without `:` the `Host` header is the tunnel host (the lower-cased,
-re-normalised URL host) followed by `:port` exactly when the port is not 443.
--/
-theorem C15_host_header_tunnel_partial (idna : Str → Option Str) (extra : PoolKey.Ctx) (p : ProxyCfg)
+/-- **Host header (tunnel).**  Inside the tunnel there is exactly one `Host` line; it is computed from
+`T = lower D`, the lower-cased pool host `D = unbracket h'` of the direct theorems (the tunnel host
+`lower h'` the CONNECT request names, with its enclosing brackets removed), and the defaulted port the
+CONNECT request names: `T` — for a name containing `:` (IPv6) in ONE pair of brackets and cut at the zone
+delimiter `%` — followed by `:port` exactly when the port is not 443.  This is the full statement; it was
+FALSE for IPv6 literals before the repair of `host-header:tunnel:ipv6-double-bracket` /
+`host-header:tunnel:ipv6-zone-unbalanced-bracket` (`http.client` of CPython 3.12.1 computes `Host` from
+`_tunnel_host` and brackets every host containing `:` — `HTTPConnection.putrequest` now hides the
+brackets urllib3 itself put there for the CONNECT line). -/
+theorem C15_host_header_tunnel (idna : Str → Option Str) (extra : PoolKey.Ctx) (p : ProxyCfg)
     (u : Url.Url) (r : Route) (hst : Str) (hs : u.scheme = some https) (hh : u.host = some hst)
     (hnf : isForwarding (some p) (some https) = false)
     (h : routeWith idna (some p) extra u = .ok r) :
-    ∃ h', Url.normalizeHost idna (some hst) (some https) = .ok (some h') ∧
-      (58 ∉ lower h' →
-        r.hostHeader = [lower h' ++ (if effPort u = 443 then [] else 58 :: Wire.toDec (effPort u))]) := by
-  obtain ⟨h', tr, pl, hn, rfl, -, -, -, -, -, -, -, hhh, -⟩ := route_tunnel_ok hs hh hnf h
-  refine ⟨h', hn, ?_⟩
-  intro h58
-  rw [hhh, hostText_eq]
-  simp [h58]
+    ∃ h' T, Url.normalizeHost idna (some hst) (some https) = .ok (some h') ∧ T = lower (unbracket h') ∧
+      r.connect = some (connectBytes (lower h') (effPort u)) ∧
+      r.hostHeader = [hostText T ++ (if effPort u = 443 then [] else 58 :: Wire.toDec (effPort u))] ∧
+      (58 ∉ T → hostText T = T) ∧
+      (58 ∈ T → hostText T = 91 :: T.takeWhile (· != 37) ++ [93]) := by
+  obtain ⟨h', tr, pl, hn, rfl, -, -, -, -, -, hcon, -, hhh, -⟩ := route_tunnel_ok hs hh hnf h
+  refine ⟨h', lower (unbracket h'), hn, rfl, hcon, ?_, ?_, ?_⟩
+  · rw [hhh, unbracket_lower]
+  · intro h58
+    rw [hostText_eq]
+    simp [h58]
+  · intro h58
+    rw [hostText_eq]
+    simp [h58]
 
 example : (send1 (some pxHttp) "https://Example.COM./p").toOption.map (·.hostHeader) = some [lit "example.com."] := by
   decide +kernel
 
-/-- known findings `host-header:tunnel:ipv6-double-bracket` and
-`host-header:tunnel:ipv6-zone-unbalanced-bracket` -/
-theorem C15_tunnel_ipv6_host_witness :
-    (send1 (some pxHttp) "https://[::1]:8443/").toOption.map (·.hostHeader) = some [lit "[[::1]]:8443"] ∧
-    (send1 (some pxHttp) "https://[fe80::1%25eth0]/").toOption.map (·.hostHeader) = some [lit "[[fe80::1]"] := by
+/-- the inputs of the repaired findings `host-header:tunnel:ipv6-double-bracket` and
+`host-header:tunnel:ipv6-zone-unbalanced-bracket`: one pair of brackets, no zone id — while the CONNECT
+request keeps naming the bracketed literal -/
+theorem C15_tunnel_ipv6_host_ok :
+    (send1 (some pxHttp) "https://[::1]:8443/").toOption.map (·.hostHeader) = some [lit "[::1]:8443"] ∧
+    (send1 (some pxHttp) "https://[fe80::1%25eth0]/").toOption.map (·.hostHeader) = some [lit "[fe80::1]"] ∧
+    (send1 (some pxHttp) "https://[::1]:8443/").toOption.map (·.connect) =
+      some (some (lit "CONNECT [::1]:8443 HTTP/1.1\r\nHost: [::1]:8443\r\n\r\n")) := by
   decide +kernel
 
 /-! ## forwarding routes: the `Host` header -/
@@ -658,7 +670,7 @@ theorem C15_redirect_stale_host_forward (idna : Str → Option Str) (extra : Poo
     (u : Url.Url) (r : Route) (n₀ : Str) (hsc : u.scheme = some http ∨ u.scheme = some https)
     (hf : isForwarding (some p) u.scheme = true) (hsk : n₀ ≠ Gen.skipHeader)
     (h : routeWith idna (some p) extra u [acceptHdr, (lit "Host", n₀)] = .ok r) :
-    r.target = u.render ∧ r.hostHeader = [n₀] := by
+    r.target = absTarget u ∧ r.hostHeader = [n₀] := by
   have hn : ∃ n, u.netloc = some n ∧ n ≠ [] := by
     unfold routeWith route at h
     have hsc' : (u.scheme = some http || u.scheme = some https) = true := by
